@@ -21,7 +21,42 @@ def sequences(rng, n):
             elif rng.random() < 0.1:
                 e = rng.choice([('call', 'position', []), ('call', 'last', []), ('bin', '+', ('call', 'position', []), ('call', 'last', []))])
             seq.append(e)
-        out.append({'doc': d, 'exprs': seq, 'merged': rng.random() < 0.7, 'binds': [('p', 'urn:p'), ('q', 'urn:q')]})
+        binds = [('p', 'urn:p'), ('q', 'urn:q')]
+        out.append({'doc': d, 'exprs': seq, 'merged': rng.random() < 0.7, 'binds': binds})
+    return out
+
+# documents in which one piece of information is reachable by several routes (an entity used in an
+# attribute value and in content, a defaulted attribute, inherited namespace declarations): a lazily
+# computed or cached value stored in the DOCUMENT shows up as a dependence on the order of the queries
+LAZY_DOCS = [
+    ('<!DOCTYPE r [<!ENTITY sep "a&#10;b"><!ENTITY t "x&#9;y  z">]><r x="&sep;" y="&t;">&sep;<c z="&t;">&t;</c><c z="q"/></r>',
+     ['string(/r)', 'string(/r/@x)', 'string(/r/@y)', 'string(//c)', 'string(//c/@z)', 'count(//@*)', 'string(/r/text())', 'normalize-space(/r)']),
+    ('<!DOCTYPE r [<!ATTLIST c d CDATA "dv" e NMTOKENS " a  b "><!ENTITY e "v">]><r><c/><c d="w" e="  k ">&e;</c></r>',
+     ['//c/@d', 'string(//c[1]/@e)', 'string(//c[2]/@e)', 'count(//c/@*)', 'string(//c[2])', '//c[@d="dv"]', 'name(//c[1]/@*[1])']),
+    ('<r xmlns="urn:d" xmlns:p="urn:p"><a><p:a x="1"/></a><a xmlns=""><a p:x="2"/></a></r>',
+     ['count(//p:a)', 'namespace-uri(//*[3])', 'namespace-uri(//*[4])', 'count(//@p:x)', 'name(/*)', 'count(//*[namespace-uri()=""])', 'local-name(//*[last()])']),
+]
+
+def lazy_state_cases(rng, quick):
+    out = []
+    for doc, pool in LAZY_DOCS:
+        pairs = [(a, b) for a in pool for b in pool if a != b]
+        if quick:
+            rng.shuffle(pairs); pairs = pairs[:30]
+        for a, b in pairs:
+            out.append({'doc': doc, 'exprs': [a, b, a], 'merged': True, 'binds': [('p', 'urn:p')], 'cold': True})
+    return out
+
+def default_binding_sequences(rng, n):
+    """the caller binds the default prefix; a failing query must not change how later unprefixed names resolve"""
+    g = X.Gen(rng)
+    out = []
+    for k in range(n):
+        d = X.gen_doc(rng, {'ns': True, 'dflt': True, 'pi': False})
+        probes = [g.nodeset(rng.choice([1, 2])) for _ in range(2)] + [('path', '//', [('/', ('step', None, rng.choice(X.NAMES), []))])]
+        fail = X.inject(rng, g.nodeset(2), rng.choice(X.ERRORS))
+        seq = probes + [fail] + probes
+        out.append({'doc': d, 'exprs': seq, 'merged': True, 'binds': [(None, 'urn:d'), ('p', 'urn:p'), ('q', 'urn:q')], 'cold': True})
     return out
 
 def c19_oracle(case, out, item):
@@ -48,6 +83,44 @@ def compare_shared_fresh(shared, fresh):
             panicked = True
     return None, ''
 
+def cold_runs(run, cases):
+    """each sequence on a freshly parsed document nothing else has read, one shared context, against
+    each of its queries alone on another fresh parse with a fresh context (implementation only: this
+    family is about state the model does not have)"""
+    if not cases:
+        return []
+    def conc(c):
+        return {'doc': c['doc'] if isinstance(c['doc'], str) else X.render_doc(c['doc']),
+                'exprs': [e if isinstance(e, str) else X.render(e) for e in c['exprs']],
+                'merged': c.get('merged', True), 'binds': c.get('binds', []), 'cold': True}
+    cases = [conc(c) for c in cases]
+    shared = X.run_impl(cases)
+    singles, index = [], []
+    for k, c in enumerate(cases):
+        for j, e in enumerate(c['exprs']):
+            singles.append(dict(c, exprs=[e])); index.append((k, j))
+    fresh = X.run_impl(singles)
+    fr = {}
+    for (k, j), o in zip(index, fresh):
+        fr[(k, j)] = o
+    failing = []
+    for k, (c, o) in enumerate(zip(cases, shared)):
+        run.evaluations += len(c['exprs'])
+        run.count('cold-sequences')
+        run.nontrivial.add((c['doc'], tuple(c['exprs'])))
+        if o.get('hang') or not o.get('C'):
+            continue
+        for j, e in enumerate(c['exprs']):
+            f = fr.get((k, j))
+            if not f or not f.get('C') or j >= len(o['C']):
+                continue
+            if o['C'][j] != f['C'][0]:
+                failing.append({'property': 'C19', 'class': 'query-order-dependence',
+                    'what': 'query %d (%s) answers %s after the earlier queries of the sequence and %s alone on a fresh parse with a fresh context' % (j, e, o['C'][j], f['C'][0]),
+                    'doc': c['doc'], 'exprs': c['exprs'], 'binds': [[p, u] for p, u in c['binds']]})
+                break
+    return failing
+
 def check(run):
     t0 = time.time()
     run.trusted = ['Coq 8.16.1 kernel + VM', 'Model/XPathEval.v threading the Context (tied by the xpath correspondence on shared-context sequences)',
@@ -57,6 +130,8 @@ def check(run):
     if not (okr and mok.get('xpath')):
         return run.finish(level='proof', rule='(binaries missing)')
     n = 400 if run.tier == 'quick' else 5000
+    extra = lazy_state_cases(run.rng, run.tier == 'quick') + default_binding_sequences(run.rng, 40 if run.tier == 'quick' else 400)
+    cold_failing = cold_runs(run, extra)
     items = sequences(run.rng, n) + X.corpus_items('C19')
     res, okm = X.evaluate(items)
     if not okm:
@@ -98,6 +173,8 @@ def check(run):
             if cls:
                 failing.append((it, r, cls, detail))
     X.report_failures(run, 'C19', failing, oracle=c19_oracle)
+    for fi in cold_failing:
+        run.failing_inputs.append(fi)
     run.extra['wall_generate_evaluate_s'] = round(time.time() - t0, 1)
     return run.finish(level='proof',
         rule='cases = queries evaluated in a shared-context sequence; non-trivial = distinct sequences mixing failing and succeeding queries',
